@@ -266,12 +266,152 @@ def run(ck, fx, cg, tier):
                 c = n.get("cond") or n.get("scrut")
                 if any(x.get("k") == "Path" and x["res"].get("k") == "Local" and x["res"]["lid"] in tl and x["res"]["name"] != "heap_log" for x, _ in walk(c)):
                     ck.ob("R16.inert", "%s|branch on heap size" % path, False, loc(n), "control flow depends on the --heap-size value")
+    # ------------------------------------------------------------ the same facts, decided on what allocate / set_log DO
+    sem = _semantic(fx)
+    if sem is not None:
+        for key, ok, why in sem:
+            ck.ob("R16.effects", key, ok, "", why)
+        if all(ok for _, ok, _ in sem):
+            # the effect-level description holds: it supersedes the shape-level obligations about the same two functions
+            # (a macro turned into a function, a helper extracted, `if let Some(log)` written out …)
+            def superseded(o):
+                if o["ok"]:
+                    return False
+                k = o["key"]
+                if k == "set_log|log file starts empty":
+                    return False        # how the file is opened is not part of the effect-level description
+                return (o["rule"] in ("R16.onepush", "R16.format") and (k.startswith("allocate|") or k.startswith("set_log|") or k in ("header then START", "ALLOCATE record", "ALLOCATE timestamp type"))) or (
+                    o["rule"] == "R16.inert" and "|log " in k and k.startswith((HEAP + "::allocate", HEAP + "::set_log")))
+            ck.obligs[:] = [o for o in ck.obligs if not superseded(o)]
     # "one A record per created array/object, in creation order": creation order is evaluation order. For array(n, init)
     # with a compound initializer the array is created first and the initializer values afterwards, once per element
     # (C13's rules on the array arm)
     from . import shared as _sh
     _sh.presuppose(ck, fx, cg, "C13", lambda o: o["rule"] == "R13.arrayrewrite", "R16.order",
                    "arrays are created before their compound initializer runs (creation order = documented evaluation order)", floor=2)
+
+
+def _semantic(fx):
+    """[(key, ok, why)] from symbolic execution of Heap::allocate (with and without a log) and Heap::set_log; None when the
+    functions cannot be executed."""
+    from ..symex import Executor, Client, State
+    from ..symdbg import fmt_term
+    a = fx.adts.get(HEAP)
+    ab, sb = fx.body(HEAP + "::allocate"), fx.body(HEAP + "::set_log")
+    if a is None or ab is None or sb is None:
+        return None
+    size_path = A.get("heapobject.size")
+
+    class C(Client):
+        name = "heap"
+        inline_depth = 6
+
+        def no_inline(self, path):
+            return path == size_path
+
+    fields = [f["name"] for f in a["variants"][0]["fields"]]
+
+    def run(body, over, args):
+        self_t = ("ctor", HEAP, None, tuple((f, over.get(f, ("var", "self." + f))) for f in fields))
+        ex = Executor(fx, C())
+        return [(s_, o) for s_, o in ex.run_body(body, [self_t] + args, State())]
+
+    def writes_to(effs, target=None):
+        out = []
+        for e in effs:
+            if e["k"] == "call" and "io::" in e["args"][0][1] and "Write" in e["args"][0][1] and e["args"][0][1].rsplit("::", 1)[-1] in ("write_fmt", "write_all", "write", "write_vectored"):
+                if target is None or e["args"][1] == target:
+                    out.append(e)
+        return out
+
+    def template(e):
+        x = e["args"][2] if len(e["args"]) > 2 else None
+        if x is None:
+            return None, ()
+        if x[0] == "fmt":
+            return "".join(p_[1] if p_[0] == "lit" else "{%d}" % p_[1] for p_ in x[1]), x[2]
+        if x[0] == "lit":
+            v = x[1]
+            return (v.decode("utf-8", "replace") if isinstance(v, (bytes, bytearray)) else str(v)), ()
+        return None, ()
+
+    def clocky(effs, t):
+        s = fmt_term(t)
+        return "SystemTime" in s or "Instant" in s or "elapsed" in s or "duration_since" in s or any(
+            e["k"] == "call" and ("SystemTime" in e["args"][0][1] or "UNIX_EPOCH" in fmt_term(e["args"])) and e.get("res") is not None and _m(t, e["res"]) for e in effs)
+
+    def _m(t, sub):
+        if t == sub:
+            return True
+        if isinstance(t, tuple):
+            return any(_m(x, sub) for x in t if isinstance(x, tuple))
+        return False
+    out = []
+    try:
+        some = run(ab, {"log": ("some", ("var", "FILE"))}, [("var", "object")])
+        none = run(ab, {"log": ("none",)}, [("var", "object")])
+        setl = run(sb, {}, [("var", "path")])
+    except Exception as e:  # noqa
+        return None
+
+    def core(effs):
+        """the effects that matter for the program: size update, growth of the heap vector"""
+        res = []
+        for e in effs:
+            if e["k"] == "set_field" and e["args"][1] == ("lit", "size"):
+                res.append(("size", e["args"][2]))
+            elif e["k"] == "call" and e["args"][0][1].endswith("::push") and e["args"][1] == ("var", "self.memory"):
+                res.append(("push", e["args"][2]))
+            elif e["k"] in ("set_field", "store_index") or (e["k"] == "call" and len(e["args"]) > 1 and e["args"][1] == ("var", "self.memory")):
+                res.append(("other", fmt_term(e["args"])[:60]))
+        return res
+    ok_some = [(s_, o) for s_, o in some if o[0] == "val"]
+    ok_none = [(s_, o) for s_, o in none if o[0] == "val"]
+    if len(ok_some) != 1 or len(ok_none) != 1:
+        out.append(("allocate|one successful path with and without a log", False, "%d / %d successful path(s)" % (len(ok_some), len(ok_none))))
+        return out
+    (s1, o1), (s0, o0) = ok_some[0], ok_none[0]
+    c1 = core(s1.eff)
+    sz = ("app", "call:" + size_path, (("var", "object"),))
+    want_new = [("app", "add", (("var", "self.size"), sz)), ("app", "add", (sz, ("var", "self.size")))]
+    shape_ok = len(c1) == 2 and c1[0][0] == "size" and c1[0][1] in want_new and c1[1] == ("push", ("var", "object"))
+    out.append(("allocate|size := size + shape size, then one push of the object", shape_ok, "program-visible effects: %s" % [(k, fmt_term(v)[:70] if isinstance(v, tuple) else v) for k, v in c1]))
+    out.append(("allocate|returns the index the object gets", o1[1] == ("ctor", "bytecode::heap::HeapIndex", None, (("0", ("app", "len", (("var", "self.memory"),))),)) or
+                _m(o1[1], ("app", "len", (("var", "self.memory"),))), "result %s" % fmt_term(o1[1])[:80]))
+    w1 = writes_to(s1.eff, ("var", "FILE"))
+    tpl, targs = template(w1[0]) if len(w1) == 1 else (None, ())
+    rec_ok = len(w1) == 1 and tpl == S9_ALLOC and len(targs) == 2 and clocky(s1.eff, targs[0]) and shape_ok and targs[1] == c1[0][1]
+    out.append(("allocate|exactly one `<ns>,A,<updated size>` record when a log is configured", rec_ok,
+                "%d write(s) to the log, template %r, second field is the updated size: %s" % (len(w1), tpl, bool(len(targs) == 2 and shape_ok and targs[1] == c1[0][1]))))
+    if len(w1) == 1 and shape_ok:
+        idx = {id(e): i for i, e in enumerate(s1.eff)}
+        i_size = [i for i, e in enumerate(s1.eff) if e["k"] == "set_field" and e["args"][1] == ("lit", "size")][0]
+        i_push = [i for i, e in enumerate(s1.eff) if e["k"] == "call" and e["args"][0][1].endswith("::push") and e["args"][1] == ("var", "self.memory")][0]
+        out.append(("allocate|size update, then the record, then the push", i_size < idx[id(w1[0])] < i_push, "effect order %d < %d < %d" % (i_size, idx[id(w1[0])], i_push)))
+    out.append(("allocate|without a log nothing is written and the program-visible effects are the same", not writes_to(s0.eff) and core(s0.eff) == c1 and o0 == o1,
+                "writes without a log: %d; same size update / push / result: %s" % (len(writes_to(s0.eff)), core(s0.eff) == c1 and o0 == o1)))
+    # set_log
+    oks = [(s_, o) for s_, o in setl if o[0] == "val"]
+    if not oks:
+        out.append(("set_log|a successful path", False, "no successful path"))
+        return out
+    all_ok = True
+    detail = ""
+    for s2, _o in oks:
+        stores = [e for e in s2.eff if e["k"] == "set_field" and e["args"][1] == ("lit", "log")]
+        file_t = stores[0]["args"][2] if len(stores) == 1 else None
+        while isinstance(file_t, tuple) and file_t and file_t[0] in ("some",):
+            file_t = file_t[1]
+        ws = writes_to(s2.eff, file_t) if file_t is not None else []
+        tpls = [template(w)[0] for w in ws]
+        start_clock = len(ws) == 2 and len(template(ws[1])[1]) == 1 and clocky(s2.eff, template(ws[1])[1][0])
+        ok2 = len(stores) == 1 and tpls == [S9_HEADER, S9_START] and start_clock and len(writes_to(s2.eff)) == 2
+        detail = "stores to Heap.log: %d; writes to that file: %r (expected %r); START carries a clock value: %s" % (len(stores), tpls, [S9_HEADER, S9_START], start_clock)
+        if not ok2:
+            all_ok = False
+            break
+    out.append(("set_log|writes the header, then one START record, into the file it stores in Heap.log", all_ok, "%d successful path(s); %s" % (len(oks), detail)))
+    return out
 
 
 def _shape(ck, fx, cg, size_fn):
